@@ -21,7 +21,7 @@ namespace Gozod.C14
 open Gozod.LockSet Gozod.Store
 
 /-- locations with an unsynchronised conflict today (open known findings) -/
-def knownRacy : List String := ["locales.DefaultLocales", "types.ZodLazyInternals.innerType"]
+def knownRacy : List String := LockSet.knownRacy
 
 /-- **c14_racefree** over the regenerated access table. -/
 theorem c14_racefree_table : raceFree (without knownRacy Gen.LockSets.table) = true := by decide
@@ -33,6 +33,42 @@ theorem c14_racefree (a b : Access)
   simp only [raceFree, List.all_eq_true] at h
   have := h a ha b hb
   simpa [hl] using this
+
+/-- `conflicts` (what the driver reports when the table proof breaks, to aim the race harness) is complete:
+    a table without conflicts is race-free. -/
+theorem conflicts_complete (t : List Access) (h : conflicts t = []) : raceFree t = true := by
+  simp only [raceFree, List.all_eq_true]
+  intro a ha b hb
+  by_cases hl : a.loc = b.loc
+  · have key : ∀ x ∈ t, ∀ y ∈ t, x.loc = y.loc → x.fn ≤ y.fn → ok x y = true := by
+      intro x hx y hy hxy hle
+      cases hok : ok x y with
+      | true => rfl
+      | false =>
+        exfalso
+        have hm : (x.loc, x.fn, y.fn) ∈ conflicts t := by
+          unfold conflicts
+          rw [List.mem_eraseDups]
+          refine List.mem_flatMap.2 ⟨x, hx, List.mem_map.2 ⟨y, List.mem_filter.2 ⟨hy, ?_⟩, ?_⟩⟩
+          · simp [hxy, hok, hle]
+          · simp [hxy]
+        rw [h] at hm
+        simp at hm
+    have oksymm : ∀ x y : Access, ok x y = ok y x := by
+      intro x y
+      unfold ok
+      cases mutexOf x.sync with
+      | none => cases mutexOf y.sync <;> simp only [] <;> ac_rfl
+      | some m =>
+        cases mutexOf y.sync with
+        | none => simp only []; ac_rfl
+        | some n => simp only []; rw [BEq.comm (a := n) (b := m)]; ac_rfl
+    rcases String.le_total a.fn b.fn with hle | hle
+    · simp [key a ha b hb hl hle]
+    · have := key b hb a ha hl.symm hle
+      rw [oksymm] at this
+      simp [this]
+  · simp [hl]
 
 /-- the table is not empty after the exclusion (the theorem is not vacuous) -/
 example : (without knownRacy Gen.LockSets.table).length ≥ 10 := by decide
